@@ -39,6 +39,17 @@
     "relation component %d specified more than once" (`relTwice`); § 4 shows the rejection of
     both histories.  The creation theorem still asks that the call names no relation component
     twice (left as it was; every accepted call now satisfies it, `createTable_ok_nodup`).
+  * handles inside the pool slice — `World.Reset` keeps the invalidated handles (generation
+    `MaxUint32`) in the memory behind the re-sliced pool (defect D14 repaired), and `Alive` is an
+    unchecked read of that memory.  `PLink` (the index ↔ pool link inside `TInv`) therefore does
+    not say that this memory is empty, only that it holds invalidated handles (so that `TInv`
+    survives `Reset`: `Ark/Props/C05Rel.lean`, § 4), and the theorems about an entity handle `e`
+    ask `e.id < w.pool.ents.length` next to `w.alive e = true`; those that establish `TInv` after
+    assigning targets ask the same of the targets named (`htin`).  Every handle the world issued
+    satisfies this, and a handle that tests alive and does not carry the generation `MaxUint32`
+    does (`PLink.alive_in`).  Both hypotheses are necessary: `forged_target_after_reset` and
+    `forged_entity_after_reset` in `Ark/Props/C05Rel.lean`.  "An accepted call named only zero or
+    alive targets" needs no such hypothesis (`newEntity_names_valid_targets`, …).
 -/
 import Ark.Proofs.TargetsAdd
 
@@ -88,6 +99,9 @@ theorem target_zero_or_alive {w : World} {fl : List Nat} (h : TInv w fl) {j : Na
     named, and changes no other entity's components, values or targets -/
 theorem newEntity_assigns_targets : type_of% @opNewEntity_rel_spec := @opNewEntity_rel_spec
 
+/-- an accepted `NewEntity(ids…, rels…)` named only zero or alive targets (whatever their IDs) -/
+theorem newEntity_names_valid_targets : type_of% @opNewEntity_rel_valid := @opNewEntity_rel_valid
+
 /-- **rejection** (typed paths): a call naming a dead target is refused with `deadTarget`, the
     world unchanged -/
 theorem newEntity_dead_target_rejected (run : ProbeRunner) (p : Path) (hp : p ≠ .unsafe_)
@@ -111,7 +125,7 @@ theorem newEntity_dead_target_not_accepted (run : ProbeRunner) (p : Path) {w : W
     (e : Ent) (w' : World) : opNewEntity run p ids vals rels w ≠ .ok e w' := by
   intro hok
   obtain ⟨r, hr, h1, h2⟩ := hd
-  rcases (opNewEntity_rel_spec run p h hl hno hreg hnd hin hrc hfew hrows hok).valid r hr with h3 | h3
+  rcases opNewEntity_rel_valid run p h hl hno hreg hnd hin hrc hfew hrows hok r hr with h3 | h3
   · rw [h1] at h3; cases h3
   · rw [h2] at h3; cases h3
 
@@ -120,6 +134,9 @@ theorem newEntity_dead_target_not_accepted (run : ProbeRunner) (p : Path) {w : W
     its old targets, its old components and their (unwritten) values, and changes no other
     entity -/
 theorem add_assigns_targets : type_of% @opAdd_rel_spec := @opAdd_rel_spec
+
+/-- an accepted `Add(e, ids…, rels…)` named only zero or alive targets (whatever their IDs) -/
+theorem add_names_valid_targets : type_of% @opAdd_rel_valid := @opAdd_rel_valid
 
 /-- **rejection** (typed paths): `Add` naming a dead target is refused with `deadTarget`, the
     world unchanged -/
@@ -131,6 +148,10 @@ theorem add_dead_target_rejected : type_of% @opAdd_deadTarget := @opAdd_deadTarg
     components and its values are kept — and changes no other entity -/
 theorem setRelations_assigns_targets : type_of% @setRelationsCore_spec := @setRelationsCore_spec
 theorem opSetRelations_assigns_targets : type_of% @opSetRelations_spec := @opSetRelations_spec
+
+/-- an accepted `SetRelations` named only zero or alive targets (whatever their IDs) -/
+theorem setRelations_names_valid_targets : type_of% @setRelationsCore_valid := @setRelationsCore_valid
+theorem opSetRelations_names_valid_targets : type_of% @opSetRelations_valid := @opSetRelations_valid
 
 /-- a valid `setRelations` (targets zero or alive) never fails -/
 theorem setRelations_never_fails : type_of% @setRelationsCore_total := @setRelationsCore_total
@@ -144,7 +165,8 @@ theorem setRelations_dead_target_rejected : type_of% @opSetRelations_deadTarget 
 theorem setRelations_dead_target_not_accepted (run : ProbeRunner) (p : Path) {w : World}
     {fl : List Nat} (h : TInv w fl) (hl : w.isLocked = false)
     (hno : ∀ (evt : Nat), w.obs.hasObservers evt = false) {e : Ent} (h2 : 2 ≤ e.id)
-    (hnf : e.id ∉ fl) (ha : w.alive e = true) {mapperIds : List Comp} {rels : List RelID}
+    (hnf : e.id ∉ fl) (ha : w.alive e = true)
+    (hsl : e.id < w.pool.ents.length) {mapperIds : List Comp} {rels : List RelID}
     (hne : rels.isEmpty = false) (hnd : (rels.map (·.comp)).Nodup)
     (hhas : ∀ (r : RelID), r ∈ rels → (targetOf w e.id r.comp).isSome = true)
     (hfew : w.tables.length < maxU32) (hrows : w.entities.length + 1 < 2 ^ 32)
@@ -152,7 +174,7 @@ theorem setRelations_dead_target_not_accepted (run : ProbeRunner) (p : Path) {w 
     (w' : World) : opSetRelations run p e mapperIds rels w ≠ .ok () w' := by
   intro hok
   obtain ⟨r, hr, h1, h2'⟩ := hd
-  rcases (opSetRelations_spec run p h hl hno h2 hnf ha hne hnd hhas hfew hrows hok).valid r hr with h3 | h3
+  rcases opSetRelations_valid run p h hl hno h2 hnf ha hsl hne hnd hhas hfew hrows hok r hr with h3 | h3
   · rw [h1] at h3; cases h3
   · rw [h2'] at h3; cases h3
 
@@ -161,14 +183,14 @@ theorem setRelations_dead_target_not_accepted (run : ProbeRunner) (p : Path) {w 
     components and values and its targets — except that a target `g` reads as the zero entity -/
 theorem removeEntity_zeroes_target (run : ProbeRunner) {w : World} {fl : List Nat} (h : TInv w fl)
     (hl : w.isLocked = false) (hno : ∀ (evt : Nat), w.obs.hasObservers evt = false) {g : Ent}
-    (h2 : 2 ≤ g.id) (hnf : g.id ∉ fl) (ha : w.alive g = true)
+    (h2 : 2 ≤ g.id) (hnf : g.id ∉ fl) (ha : w.alive g = true) (hsl : g.id < w.pool.ents.length)
     (hfew : w.tables.length + w.relationArchetypes.length + 1 ≤ maxU32)
     (hrows : 2 * w.entities.length < 2 ^ 32) :
     ∃ (w' : World), opRemoveEntity run g w = .ok () w' ∧ TInv w' (g.id :: fl) ∧
       w'.alive g = false ∧
       ∀ (j : Nat), j ≠ g.id → SameEnt w w' j ∧ ∀ (c : Comp),
         targetOf w' j c = if targetOf w j c = some g then some Ent.zero else targetOf w j c := by
-  obtain ⟨w', hok, post⟩ := opRemoveEntity_rel_spec run h hl hno h2 hnf ha hfew hrows
+  obtain ⟨w', hok, post⟩ := opRemoveEntity_rel_spec run h hl hno h2 hnf ha hsl hfew hrows
   exact ⟨w', hok, post.tinv, post.dead, post.frame⟩
 
 /-- the full postcondition of the removal (also: no non-free table targets the removed ID, the
@@ -237,24 +259,24 @@ theorem good_d2 : Good d2 :=
 
 theorem good_d3 : Good d3 :=
   good_d2.newEntity noRun .unsafe_ (by decide +kernel) (by decide +kernel) (by decide +kernel)
-    (by decide +kernel) (by decide +kernel) (by decide +kernel) (by decide +kernel)
+    (by decide +kernel) (by decide +kernel) (by decide +kernel) (by decide +kernel) (by decide +kernel)
 
 theorem good_d4 : Good d4 :=
   good_d3.newEntity noRun .unsafe_ (by decide +kernel) (by decide +kernel) (by decide +kernel)
-    (by decide +kernel) (by decide +kernel) (by decide +kernel) (by decide +kernel)
+    (by decide +kernel) (by decide +kernel) (by decide +kernel) (by decide +kernel) (by decide +kernel)
 
 theorem good_d5 : Good d5 :=
   good_d4.newEntity noRun .typed (by decide +kernel) (by decide +kernel) (by decide +kernel)
-    (by decide +kernel) (by decide +kernel) (by decide +kernel) (by decide +kernel)
+    (by decide +kernel) (by decide +kernel) (by decide +kernel) (by decide +kernel) (by decide +kernel)
 
 theorem good_d6 : Good d6 :=
   good_d5.newEntity noRun .typed (by decide +kernel) (by decide +kernel) (by decide +kernel)
-    (by decide +kernel) (by decide +kernel) (by decide +kernel) (by decide +kernel)
+    (by decide +kernel) (by decide +kernel) (by decide +kernel) (by decide +kernel) (by decide +kernel)
 
 /-- non-vacuity: the hypotheses of the removal theorem hold in a world with two relation tables -/
 theorem good_d7 : Good d7 :=
   good_d6.newEntity noRun .typed (by decide +kernel) (by decide +kernel) (by decide +kernel)
-    (by decide +kernel) (by decide +kernel) (by decide +kernel) (by decide +kernel)
+    (by decide +kernel) (by decide +kernel) (by decide +kernel) (by decide +kernel) (by decide +kernel)
 
 /-- the removal theorem applied: `RemoveEntity p1` does not panic and the invariant holds again -/
 theorem good_d8 : panicOf (opRemoveEntity noRun p1 d7) = none ∧ Good d8 :=
@@ -263,12 +285,12 @@ theorem good_d8 : panicOf (opRemoveEntity noRun p1 d7) = none ∧ Good d8 :=
 
 theorem good_d9 : Good d9 :=
   good_d8.2.newEntity noRun .unsafe_ (by decide +kernel) (by decide +kernel) (by decide +kernel)
-    (by decide +kernel) (by decide +kernel) (by decide +kernel) (by decide +kernel)
+    (by decide +kernel) (by decide +kernel) (by decide +kernel) (by decide +kernel) (by decide +kernel)
 
 /-- … and the creation theorem applies again when the freed table is recycled -/
 theorem good_d10 : Good d10 :=
   good_d9.newEntity noRun .typed (by decide +kernel) (by decide +kernel) (by decide +kernel)
-    (by decide +kernel) (by decide +kernel) (by decide +kernel) (by decide +kernel)
+    (by decide +kernel) (by decide +kernel) (by decide +kernel) (by decide +kernel) (by decide +kernel)
 
 /-- before the removal: children 4, 5 in table 1 (target `p1`), child 6 in table 2 (target `p2`) -/
 example :
@@ -313,7 +335,7 @@ def d7s : World := (opSetRelations noRun .typed ⟨6, 0⟩ [0] [⟨0, p1⟩] d7)
 theorem good_d7s : Good d7s :=
   good_d7.setRelations noRun .typed (by decide +kernel) (by decide +kernel) (by decide +kernel)
     (by decide +kernel) (by decide +kernel) (by decide +kernel) (by decide +kernel)
-    (by decide +kernel) (by decide +kernel)
+    (by decide +kernel) (by decide +kernel) (by decide +kernel)
 
 example :
     (targetOf d7s 4 0, targetOf d7s 5 0, targetOf d7s 6 0) = (some p1, some p1, some p1) ∧
@@ -328,7 +350,7 @@ def d7a : World := (opAdd noRun .typed p2 [0] [] [⟨0, p1⟩] d7).state
 theorem good_d7a : Good d7a :=
   good_d7.add noRun .typed (by decide +kernel) (by decide +kernel) (by decide +kernel)
     (by decide +kernel) (by decide +kernel) (by decide +kernel) (by decide +kernel)
-    (by decide +kernel) (by decide +kernel) (by decide +kernel)
+    (by decide +kernel) (by decide +kernel) (by decide +kernel) (by decide +kernel)
 
 example :
     (targetOf d7a 3 0, targetOf d7a 4 0, targetOf d7a 5 0, targetOf d7a 6 0) =
